@@ -64,6 +64,18 @@ Theorem C19_invalid_field_is_error : forall port v0b teams v1_0 v1_3 nb cb v311,
                forall x, player_of port v0b teams v1_0 v1_3 nb cb v311 <> ROk x).
 Proof. exact player_melee_error_from_source. Qed.
 
+From Peppi Require Import Gen.StartWiring Proofs.StartWiringLayout.
+(* the collecting pipeline of game_start (regenerated): a decoding error of ANY port's player makes the whole Game Start an error --
+   it is never swallowed into "one player fewer" *)
+Theorem C19_player_errors_propagate_from_source :
+  start_players_pipeline = [PpFilterMapTranspose; PpCollectResultVec; PpQuestion] /\
+  start_players_errors_propagate = true /\ start_players_none_dropped = true /\
+  start_players_field = "players"%string /\
+  (forall blk env, In RErr (map (fun n => player_call (map (fun ws => arg_val blk env n (snd ws)) start_player_wiring))
+                                (seq (fst start_player_range) (snd start_player_range - fst start_player_range))) ->
+                   players_of_tbl blk env = RErr).
+Proof. exact wiring_pipeline_from_source. Qed.
+
 Print Assumptions C19_tail_irrelevant.
 Print Assumptions C19_prefix.
 Print Assumptions C19_invalid.
@@ -77,3 +89,4 @@ Print Assumptions C19_slice_from_source.
 Print Assumptions C19_to_normalized_from_source.
 Print Assumptions C19_fields_from_source.
 Print Assumptions C19_invalid_field_is_error.
+Print Assumptions C19_player_errors_propagate_from_source.
